@@ -46,15 +46,23 @@ Qed.
 
 (* ---------- the two inversions, for every day / every valid date ---------- *)
 
+Lemma sweep_days_at r : 0 <= r < 146097 -> chk_day (-719468 + r) = true.
+Proof.
+  intro Hr.
+  assert (Hn : (Z.to_nat r < Z.to_nat 146097)%nat) by (apply Z2Nat.inj_lt; lia).
+  pose proof (all_from_spec_nat _ _ _ sweep_days (Z.to_nat r) Hn) as H.
+  rewrite Z2Nat.id in H by lia. exact H.
+Qed.
+
 Theorem cfd_sound z :
   let '(y, m, d) := civil_from_days z in days_from_civil y m d = z /\ valid_date y m d = true.
 Proof.
-  set (q := (z + 719468) / 146097). set (r := (z + 719468) mod 146097).
-  assert (Hz : z = (-719468 + r) + 146097 * q).
-  { unfold q, r. pose proof (Z.div_mod (z + 719468) 146097 ltac:(lia)). lia. }
-  assert (Hr : 0 <= r < 146097) by (unfold r; apply Z.mod_pos_bound; lia).
-  pose proof (all_from_spec _ _ _ sweep_days r ltac:(rewrite Z2Nat.id; lia)) as H.
-  rewrite Hz, cfd_shift. unfold chk_day in H.
+  assert (Hex : exists q r, z = (-719468 + r) + 146097 * q /\ 0 <= r < 146097).
+  { exists ((z + 719468) / 146097), ((z + 719468) mod 146097).
+    split; [pose proof (Z.div_mod (z + 719468) 146097 ltac:(lia)); lia|apply Z.mod_pos_bound; lia]. }
+  destruct Hex as (q & r & Hz & Hr). subst z.
+  pose proof (sweep_days_at r Hr) as H.
+  rewrite cfd_shift. unfold chk_day in H.
   destruct (civil_from_days (-719468 + r)) as [[y m] d].
   apply andb_true_iff in H as [H1 H2]. apply Z.eqb_eq in H1.
   rewrite dfc_shift, valid_date_shift. split; [lia|exact H2].
@@ -322,3 +330,34 @@ Qed.
 
 Theorem emit_text_ok x : emit_ok x = true -> wf_bytes (emit x) = true /\ utf8_valid (emit x) = true.
 Proof. intro H. apply ascii_text_ok, shape_ascii, emit_shape, H. Qed.
+
+(* ---------- the serialiser with explicit outcomes ---------- *)
+
+Theorem emit_checked_total x : emit_checked x <> EmitPanic.
+Proof.
+  unfold emit_checked. destruct ((o_year (to_utc_trunc x) <? -9999) || (9999 <? o_year (to_utc_trunc x))); [discriminate|].
+  destruct (o_year (to_utc_trunc x) <? 0); discriminate.
+Qed.
+
+Theorem emit_checked_ok x : emit_ok x = true -> emit_checked x = Emitted (emit x).
+Proof.
+  intro H. apply emit_ok_year in H. unfold emit_checked, emit.
+  replace (o_year (to_utc_trunc x) <? -9999) with false by (symmetry; apply Z.ltb_ge; lia).
+  replace (9999 <? o_year (to_utc_trunc x)) with false by (symmetry; apply Z.ltb_ge; lia).
+  replace (o_year (to_utc_trunc x) <? 0) with false by (symmetry; apply Z.ltb_ge; lia). reflexivity.
+Qed.
+
+Theorem emit_checked_error x : emit_ok x = false -> exists e, emit_checked x = EmitError e.
+Proof.
+  unfold emit_ok, emit_checked. intro H.
+  destruct (Z.ltb_spec (o_year (to_utc_trunc x)) (-9999)); [eexists; reflexivity|].
+  destruct (Z.ltb_spec 9999 (o_year (to_utc_trunc x))); [eexists; reflexivity|]. cbn [orb].
+  destruct (Z.ltb_spec (o_year (to_utc_trunc x)) 0); [eexists; reflexivity|].
+  exfalso. apply andb_false_iff in H as [H|H]; [apply Z.leb_gt in H|apply Z.leb_gt in H]; lia.
+Qed.
+
+Lemma to_utc_trunc_valid x : odt_valid (to_utc_trunc x) = true /\ odt_normal (to_utc_trunc x) = true.
+Proof. unfold to_utc_trunc. apply utc_of_secs_valid. Qed.
+
+Lemma emit_ok_trunc x : emit_ok (to_utc_trunc x) = emit_ok x.
+Proof. unfold emit_ok. rewrite to_utc_trunc_idem. reflexivity. Qed.
